@@ -10,7 +10,7 @@
    every order [ord] in which the leaves draw their number from the atomic
    counter (any injection of the leaves into [0, part_count)). *)
 From Coq Require Import Permutation QArith Floats.SpecFloat.
-From Coupe Require Import Lib.Prelude Lib.SFloat Model.MultiJagged Proofs.MultiJaggedProofs Proofs.MultiJaggedExact Proofs.MultiJaggedSim Proofs.MultiJaggedTotal Proofs.MultiJaggedSep Gen.MjGen Gen.MjSortGen Gen.MjRecGen.
+From Coupe Require Import Lib.Prelude Lib.SFloat Model.MultiJagged Proofs.MultiJaggedProofs Proofs.MultiJaggedExact Proofs.MultiJaggedSim Proofs.MultiJaggedTotal Proofs.MultiJaggedSep Proofs.MultiJaggedMono Proofs.MultiJaggedF64Mono Proofs.MultiJaggedF64Ulps Proofs.MultiJaggedF64Scaled Gen.MjGen Gen.MjSortGen Gen.MjRecGen.
 Open Scope N_scope.
 
 (* the literals of multi_jagged.rs the model is written against, re-read from the source on every run *)
@@ -242,6 +242,74 @@ Theorem C11_f64_total_of_monotone_cuts_partial :
   exists p, multi_jagged (F64eps eps) D npts wts sorter blk root ord k m p0 = Ok p.
 Proof. exact mj_f64_total_of_monotone_cuts. Qed.
 Print Assumptions C11_f64_total_of_monotone_cuts_partial.
+
+(* ---- mono_cuts, and with it no-panic, for binary64 on integer-valued weights ---- *)
+
+(* For ANY arithmetic: if the weights are images [inj z] of non-negative integers
+   whose total stays within a bound below which addition is exact, then every
+   running sum of the code — whatever its association — is [inj] of the integer
+   prefix sum, and the split positions of every call are non-decreasing as soon
+   as the thresholds (class T, ordered by tleS) compare like numbers with exact
+   sums: F_first .. F_convex, F_thresholds. *)
+Theorem C11_mono_cuts_of_exact_sums :
+  forall (A : arith) (inj : Z -> num A) (Bound : Z),
+  a_zero A = inj 0%Z ->
+  (forall a b, (0 <= a)%Z -> (0 <= b)%Z -> (a + b <= Bound)%Z -> a_add A (inj a) (inj b) = inj (a + b)%Z) ->
+  forall (T : num A -> Prop) (tleS : num A -> num A -> Prop),
+  (forall t t', tleS t t' -> tle A inj Bound t t') ->
+  (forall t, T t -> a_lt A t (inj 0%Z) = false) ->
+  (forall t a b, T t -> inR Bound a -> inR Bound b -> (a <= b)%Z -> a_lt A t (inj a) = true -> a_lt A t (inj b) = true) ->
+  (forall t a, T t -> inR Bound a -> a_lt A (inj a) t = false -> a_lt A t (inj a) = false -> a_ulps A t (inj a) = true) ->
+  (forall t t' a, T t -> T t' -> tleS t t' -> inR Bound a ->
+     a_lt A (inj a) t' = false -> a_ulps A t (inj a) = true -> a_ulps A t' (inj a) = true) ->
+  (forall W cparts parts init z, inR Bound W ->
+     Forall (fun cp => 1 <= cp) cparts -> parts = sumN cparts -> parts < 2 ^ 60 ->
+     map (fun cp => a_div A (a_ofN A cp) (a_ofN A parts)) cparts = init ++ [z] ->
+     Forall T (thresholds A (inj W) (inj 0%Z) init) /\ Sorted.StronglySorted tleS (thresholds A (inj W) (inj 0%Z) init)) ->
+  forall zs : list Z, Forall (fun z => (0 <= z)%Z) zs -> (sumZ zs <= Bound)%Z ->
+  forall blk, mono_cuts A (length zs) (map inj zs) blk.
+Proof. exact mono_cuts_of_exact_sums. Qed.
+Print Assumptions C11_mono_cuts_of_exact_sums.
+
+(* binary64: the ULP comparison of the code (epsilon 0.0, 4 ULPs) is convex on
+   non-negative values — bit patterns are monotone in the value, and
+   |t - s| <= 0.0 forces t = s (Flocq; axioms of the classical reals) *)
+Theorem C11_f64_ulps_convex : ulps_convex_f64.
+Proof. exact ulps_convex_f64_holds. Qed.
+Print Assumptions C11_f64_ulps_convex.
+
+(* mono_cuts for binary64 and integer-valued non-negative weights with total <= 2^53 *)
+Theorem C11_f64_mono_cuts_integer_weights : forall (zs : list Z) blk,
+  Forall (fun z => (0 <= z)%Z) zs -> (sumZ zs <= 2 ^ 53)%Z ->
+  mono_cuts F64 (length zs) (map (fun z => f64_of_Z z) zs) blk.
+Proof. exact f64_mono_cuts_integer. Qed.
+Print Assumptions C11_f64_mono_cuts_integer_weights.
+
+(* NO PANIC at binary64 (the code as it is), no premise about the arithmetic:
+   integer-valued non-negative weights whose total is at most 2^53 *)
+Theorem C11_f64_total : forall D (zs : list Z) sorter blk cxlt root ord (k : N) (m : nat) p0,
+  root_ok root -> sorter_ok sorter cxlt -> 1 <= k -> k < 2 ^ 60 -> (1 <= m)%nat -> (1 <= D)%nat ->
+  Forall (fun z => (0 <= z)%Z) zs -> (sumZ zs <= 2 ^ 53)%Z -> length p0 = length zs ->
+  exists p, multi_jagged F64 D (length zs) (map (fun z => f64_of_Z z) zs) sorter blk root ord k m p0 = Ok p.
+Proof. exact mj_f64_total_integer. Qed.
+Print Assumptions C11_f64_total.
+
+(* the same for weights z_i * 2^e with a common exponent (injS e z is the value
+   `binary_normalize 53 1024 z e false` the runs feed to the model: e = 0, 3,
+   +-10, -30, -70, and -1074 for the subnormal family) *)
+Theorem C11_f64_mono_cuts_scaled_weights : forall e, (-1074 <= e <= 970)%Z -> forall (zs : list Z) blk,
+  Forall (fun z => (0 <= z)%Z) zs -> (sumZ zs < 2 ^ 53)%Z ->
+  mono_cuts F64 (length zs) (map (injS e) zs) blk.
+Proof. exact f64_mono_cuts_scaled. Qed.
+Print Assumptions C11_f64_mono_cuts_scaled_weights.
+
+Theorem C11_f64_total_scaled : forall e D (zs : list Z) sorter blk cxlt root ord (k : N) (m : nat) p0,
+  (-1074 <= e <= 970)%Z ->
+  root_ok root -> sorter_ok sorter cxlt -> 1 <= k -> k < 2 ^ 60 -> (1 <= m)%nat -> (1 <= D)%nat ->
+  Forall (fun z => (0 <= z)%Z) zs -> (sumZ zs < 2 ^ 53)%Z -> length p0 = length zs ->
+  exists p, multi_jagged F64 D (length zs) (map (injS e) zs) sorter blk root ord k m p0 = Ok p.
+Proof. exact mj_f64_total_scaled. Qed.
+Print Assumptions C11_f64_total_scaled.
 
 (* ---- whole-algorithm schedule independence at exact arithmetic (for C06) ---- *)
 
